@@ -290,6 +290,7 @@ func (m *monC11) AfterBlock(c *Chain, req *abci.RequestFinalizeBlock, res *abci.
 				}
 				si.stops++
 				w.Case("C11", fmt.Sprintf("stop cause=%s repeated=%v", cause, si.stops > 1))
+				w.Event("C11", "stop-cause:"+cause)
 			}
 		}
 	}
